@@ -313,7 +313,7 @@ def run(prog, ctx):
     except Exception as ex:
         res.extra.setdefault("undecided_items", []).append("C18.S could not run C07: %r" % (ex,))
     # HLL: 4 bytes per aux entry, and an aux entry exists exactly for a register at or above cur_min + 15 (C02.A4)
-    C.import_rules(res, prog, ctx, "C18.A", "C02", ("C02.A4",), "aux entries only for exception registers", 2)
+    C.import_rules(res, prog, ctx, "C18.A", "C02", ("C02.A4", "C02.S"), "aux entries only for exception registers", 3)
     # HLL union: a source is adopted wholesale only at the union's own lg_k (C03.L); adopting a larger one keeps its bigger tables
     C.import_rules(res, prog, ctx, "C18.L", "C03", ("C03.L",), "wholesale adoption only at equal lg_k", 1)
     res.explanation = ("who-may-grow over all %d functions of the crate for the six fixed-size buffers; capacity-rule guards and formulas for HLL "
